@@ -83,7 +83,7 @@ Theorem C16_unpermitted_rejected :
 Proof. exact unpermitted_first_leaf_rejected. Qed.
 Print Assumptions C16_unpermitted_rejected.
 
-(** … and stays out over any history in which no message re-admits it: all its txs are rejected. *)
+(** … and stays out over any history in which no message lets it back in: all its txs are rejected. *)
 Theorem C16_stale_permission_over_histories :
   forall g a h s, permitted s a = false -> no_grant_to a h = true ->
   permitted (fst (run_history g s h)) a = false /\
